@@ -166,5 +166,50 @@ class NumUnit:
         from units.c05_ops import OpsUnit
         return OpsUnit.witness(self, repo, o, res)
 
+    def cli_replay(self, repo, o, vals):
+        """receiver decoded from kani's bytes -> `r = a.<method>()` on the real CLI, against the conversion the property states"""
+        import math
+        from vlib import numreplay as N, cli
+        parts = o.oid.split(".")
+        parts = parts[3:] if parts[0] == "C17" else parts[1:]          # C17.nopanic.builtin.<m>.<k> / C14.<m>.<k>[.min]
+        m, k = parts[0], parts[1]
+        if len(parts) > 2 and parts[2] == "min":
+            a = -2**31 if k == "int" else -2**127
+        else:
+            if not vals:
+                return {"replayed_on_real_cli": False, "why": "no symbolic input"}
+            a = N.decode(k, vals[0])
+        la = N.literal(k, a)
+        if la is None:
+            # NaN / infinities are not literals, but they are values programs compute
+            if k == "float" and math.isnan(a): la = "(0.0 - 1.0).sqrt()"
+            elif k == "float" and math.isinf(a):
+                big = N.literal("float", 1e200)
+                la = f"({big} * {big})" if a > 0 else f"((0.0 - {big}) * {big})"
+            else:
+                return {"replayed_on_real_cli": False, "why": "receiver cannot be written as an MScript expression", "receiver": repr(a)}
+        tgt = {"to_int": "int", "to_bigint": "bigint", "to_byte": "byte"}.get(m)
+        if tgt:
+            ex = a if k != "float" else (None if (math.isnan(a) or math.isinf(a)) else int(a))
+            lo, hi = N.RANGE[tgt]
+            expect = ("ok", tgt, ex) if ex is not None and lo <= ex <= hi else ("fail",)
+        elif m == "to_float":
+            expect = ("ok", "float", float(a))
+        elif m == "abs":
+            if k == "float": expect = ("ok", "float", abs(a))
+            else:
+                lo, hi = N.RANGE[k]
+                expect = ("ok", k, abs(a)) if abs(a) <= hi else ("fail",)
+        else:
+            f = {"fpart": lambda x: math.fmod(x, 1.0), "ipart": lambda x: float(math.trunc(x)), "round": lambda x: float(math.floor(abs(x) + 0.5)) * (1 if x >= 0 else -1),
+                 "floor": lambda x: float(math.floor(x)), "ceil": lambda x: float(math.ceil(x))}[m]
+            try: expect = ("ok", "float", f(a))
+            except Exception: expect = ("ok", "float", a)
+        prog = f"a = {la}\nr = a.{m}()\nprint typeof r\nprint r\n"
+        run = cli.run_program(repo, prog)
+        rep, actual = N.judge(expect, run)
+        return {"replayed_on_real_cli": True, "reproduced_on_real_cli": rep, "receiver": f"{k} {a!r}",
+                "expected_by_the_property": "a failure (no value)" if expect[0] == "fail" else f"{expect[1]} {expect[2]!r}", "actual": actual, **run}
+
 
 UNITS = [NumUnit()]
